@@ -31,7 +31,8 @@
   ("single-column characters" in the properties' quantifiers).  The cells of `put` carry ABSOLUTE formatting: `putStr s`
   is correct only for a terminal whose graphic state is the default one when `s` arrives — the theorems assume
   `t.g = {}` when a render starts and prove it again at its end (every `str(FmtStr)` ends in the default state).
-  Not exercised by curtsies and fixed here as xterm does it: `lf` clears `pw`; erasing leaves `pw` alone.
+  Not exercised by curtsies and fixed here as xterm does it: `lf` and the erase functions (`el0 el1 ed0`) clear `pw`
+  (xterm resets its wrap flag in CursorDown and in ClearRight/ClearLeft/ClearBelow).
 -/
 import Curtsies.Spec.Sgr
 namespace Curtsies.Spec.Terminal
@@ -110,9 +111,9 @@ def Term.step (t : Term) : TermOp → Term
   | .cha c => { t with c := min c (t.w - 1), pw := false }
   | .put cells final => { cells.foldl Term.putCell t with g := final }
   | .lf => { t.index with pw := false }
-  | .el0 => { t with grid := fun r c => if r = t.r ∧ t.c ≤ c then t.erased else t.grid r c }
-  | .el1 => { t with grid := fun r c => if r = t.r ∧ c ≤ t.c then t.erased else t.grid r c }
-  | .ed0 => { t with grid := fun r c => if (r = t.r ∧ t.c ≤ c) ∨ t.r < r then t.erased else t.grid r c }
+  | .el0 => { t with grid := fun r c => if r = t.r ∧ t.c ≤ c then t.erased else t.grid r c, pw := false }
+  | .el1 => { t with grid := fun r c => if r = t.r ∧ c ≤ t.c then t.erased else t.grid r c, pw := false }
+  | .ed0 => { t with grid := fun r c => if (r = t.r ∧ t.c ≤ c) ∨ t.r < r then t.erased else t.grid r c, pw := false }
   | .hide => { t with cursorVisible := false }
   | .show => { t with cursorVisible := true }
   | .decsc =>
